@@ -229,7 +229,7 @@ def check_C10(tier, seed):
     res = Result("C10", tier, seed, "model_checking")
     res.coverage["rule"] = ("recorded get / get_unchecked / carrier / DOM-lazy-owned pointer calls on generated, mutated and block-edge stress documents; TLC recomputes "
                             "Lookup(Denotes(bytes), path) (first member wins) and compares Ok/Err, the returned span by byte offsets, and the error category")
-    lg_record_validate("C10", tier, seed, res, 6000 if tier == QUICK else 200000, ("c10", "panic"))
+    lg_record_validate("C10", tier, seed, res, 12000 if tier == QUICK else 300000, ("c10", "panic"))
     return res.finish()
 
 
@@ -257,4 +257,50 @@ def check_C14(tier, seed):
                             "text is a well-formed value with valid UTF-8 inside the input, and that the lax machine run over the bytes before it, without rejecting, is "
                             "exactly at the value of the target (one open container per path element, wanted key pending / index reached)")
     lg_record_validate("C14", tier, seed + 14, res, 6000 if tier == QUICK else 200000, ("c14", "panic"))
+    return res.finish()
+
+
+def generic_record_validate(prop, res, sub, args, trace_module, consts, label, shards=16):
+    """run a `vh <sub>` recorder and validate its shards with a Trace_* spec"""
+    exe = build_harness()
+    out = fresh(prop, label)
+    rc, o, err = run_vh(exe, [sub, "--out", os.path.join(out, "trace"), "--shards", shards] + args, inflight=os.path.join(out, "inflight"))
+    if rc != 0:
+        cid, hx = read_inflight(os.path.join(out, "inflight"))
+        res.add_mismatch({"suite": sub, "class": "crash", "kind": "crash", "rc": rc, "case": cid, "bytes_hex": hx,
+                          "bytes_lossy": bytes.fromhex(hx).decode("utf-8", "replace") if hx else "",
+                          "why": "process died (rc %s) while recording case %s: %s" % (rc, cid, err[-300:])})
+        return None
+    summ = json.loads(o.strip().splitlines()[-1])
+    files = [f for f in (os.path.join(out, "trace.%d.ndjson" % i) for i in range(shards)) if os.path.getsize(f) > 0]
+    t0 = time.time()
+    accepted, rejects = tlc_trace(trace_module, files, consts=consts)
+    log("%s: %d lines accepted, %d rejects, %.1fs" % (trace_module, accepted, len(rejects), time.time() - t0))
+    for r in rejects:
+        ev = r["event"] or {}
+        lit = bytes(ev.get("lit", ev.get("b", [])))
+        res.add_mismatch({"suite": sub + "-trace", "ev": ev.get("ev"), "ep": r["why"], "kind": ev.get("origin"),
+                          "bytes_hex": lit.hex(), "bytes_lossy": lit.decode("utf-8", "replace"), "event": ev,
+                          "why": "trace line %d rejected by %s: %s" % (r["line_no"], trace_module, r["why"][:200]),
+                          "trace_file": r["file"], "line_no": r["line_no"]})
+    c = res.coverage
+    c["traces_validated_against_impl"] += accepted
+    c["states"] += accepted + len(files)
+    c["transitions"] += accepted
+    c["evaluations"] += summ["events"]
+    c.setdefault("record", {})[label] = dict(summ, accepted_lines=accepted, rejected=len(rejects))
+    if files:
+        with open(files[0]) as f:
+            ev = json.loads(f.readline())
+        c["samples"].append({"trace_event": {k: (bytes(v).decode("utf-8", "replace")[:120] if k in ("lit", "b") else v) for k, v in ev.items() if k in ("ev", "origin", "lit", "b", "ws")}})
+    return summ
+
+
+def check_C09(tier, seed):
+    res = Result("C09", tier, seed, "model_checking")
+    res.coverage["rule"] = ("literals plain^p special plain^(L-p) (31 specials: every escape form, control characters, multibyte and invalid UTF-8, bad escapes, unpaired surrogates; "
+                            "optional leading escape, second special) x start offset 0..64 x what follows, through 13 strict and 6 lossy decoders; plus the \\uXXXX / surrogate-pair "
+                            "table (quick: stride 53; thorough: all 1,114,112 code points); TLC decodes each literal with the payload layer of JsonText and compares text, Ok/Err and borrowed-ness")
+    generic_record_validate("C09", res, "st-record", ["--seed", seed, "--n", 6000 if tier == QUICK else 400000, "--mode", "sweep"], "Trace_Strings", {}, "sweep")
+    generic_record_validate("C09", res, "st-record", ["--seed", seed, "--n", 53 if tier == QUICK else 1, "--mode", "codepoints"], "Trace_Strings", {}, "codepoints")
     return res.finish()
